@@ -514,8 +514,30 @@ class Reexpress:
         return cfg, self.dirs, self.stats
 
 
+def explicit_nulls(rnd, cfg):
+    """optional properties written out as `null` (documented: a null property is the same as an absent one, it takes its
+    default): clock type attributes, event record type log levels"""
+    n = 0
+    tt = cfg['trace']['type']
+    for cn, ck in (tt.get('clock-types') or {}).items():
+        if not isinstance(ck, dict):
+            continue
+        for k in ('description', 'precision', 'offset', 'origin-is-unix-epoch', 'uuid', 'frequency'):
+            if k not in ck and rnd.random() < 0.25:
+                ck[k] = None
+                n += 1
+    for dn, d in tt['data-stream-types'].items():
+        for en, e in (d.get('event-record-types') or {}).items():
+            if isinstance(e, dict) and 'log-level' not in e and rnd.random() < 0.2:
+                e['log-level'] = None
+                n += 1
+    return n
+
+
 def gen_effective_case(rnd, profile='layout'):
     cfg, info = gencfg.gen_config_tree(rnd, None, profile)
+    if rnd.random() < 0.5:
+        explicit_nulls(rnd, cfg)
     r = Reexpress(rnd, cfg, p_alias=rnd.choice([0, 0.3, 0.6]), p_inherit=rnd.choice([0, 0.3, 0.5]),
                   p_include=rnd.choice([0, 0.5, 0.9]), ndirs=rnd.choice([1, 2, 3]))
     doc, dirs, stats = r.run()
